@@ -271,7 +271,7 @@ def run_seq(ctx, path: Path, ops):
     data = path.read_bytes() if path.exists() else None
     if not viol and data is not None:
         hdr, recs, clean = ukvlib.scan_file(data)
-        if hdr is None or not clean or {k.decode(): v for k, v in recs} != ref:
+        if hdr is None or not clean or {k.decode("utf-8", "replace"): v for k, v in recs} != ref:
             viol = ("C02:collection-file-differs-from-puts", "independent scan of the final file != the successfully put pairs")
     if viol:
         ctx.violation(viol[0], viol[1], {"ops": [line_of(o) for o in done]})
@@ -323,7 +323,7 @@ def two_libraries(ctx):
             bad = bad or f"overlapping writing sessions on different libraries raised {type(e).__name__}: {e}"
         for i, p in enumerate(paths):
             hdr, recs, clean = ukvlib.scan_file(p.read_bytes())
-            onfile = {k.decode(): v for k, v in recs}
+            onfile = {k.decode("utf-8", "replace"): v for k, v in recs}
             if (onfile != ref[i] or not clean) and not bad:
                 bad = f"file of library {i} holds {sorted(onfile)[:6]}, the pairs put into it are {sorted(ref[i])[:6]}"
         ctx.case(f"two-libraries:{bufs}", True)
